@@ -17,6 +17,8 @@ NSHARDS = int(os.environ.get("VERIF_SHARDS", "16"))
 REPLAY_DIR = os.path.join(VERIF, "replays")
 EVIDENCE_DIR = os.environ.get("VERIF_EVIDENCE_DIR", os.path.join(VERIF, "evidence"))
 MAX_VIOL_PER_SHARD = 40
+# properties that promise an answer: a crash of the responder violates them for every later request
+MUST_ANSWER = {"C05", "C06", "C07", "C11", "C13", "C14", "C15", "C16", "C17", "C18"}
 
 
 def h64(*parts):
@@ -56,6 +58,7 @@ class Ctx:
         self.t0 = time.time()
         self._cross_seen = set()
         self._tcp_tail = {}
+        self.crash_is_violation = prop in MUST_ANSWER
 
     # ---- driver life cycle --------------------------------------------------
     def driver(self):
@@ -149,6 +152,11 @@ class Ctx:
         if r.kind == "P":
             self.stats["panics"] += 1
             self._universal_hit("C01", "panic:" + monitors.panic_site(r.panic), r.panic, f, hist_upto)
+            if self.crash_is_violation and self.prop != "C01":
+                # a responder that aborts answers nothing from then on: for the must-answer properties the crash
+                # itself is a violation (production has no catch_unwind), reported under its own key
+                self.violation("crash:" + monitors.panic_site(r.panic), "the responder panicked while handling this frame (%s): in production the "
+                               "process is gone and nothing is answered any more" % r.panic, observed="panic", hist_upto=hist_upto, frame=f)
             return
         if not self.universal:
             return
